@@ -363,6 +363,7 @@ func (o *Op) ModelLine(obs *Obs) string {
 
 // Obs is what the implementation answered, canonicalised.
 type Obs struct {
+	Events   []string
 	NewID    string
 	CopyETag string
 	Status   int
@@ -383,6 +384,7 @@ func (o *Obs) Line() string {
 
 // World: the gateway(s) under test plus the credentials known to the harness.
 type World struct {
+	Hook     *Hook // when set, notification records are collected after every request
 	Gws      []*gw.Gateway
 	Root     gw.Creds
 	Secrets  map[string]string // access -> secret of accounts created so far
@@ -1075,6 +1077,9 @@ func (w *World) Exec(o *Op) *Obs {
 		req.Auth = "none"
 	}
 	r := gw.Do(w.addr(), req)
+	if w.Hook != nil {
+		obs.Events = w.Hook.Drain(6*time.Millisecond, 400*time.Millisecond)
+	}
 	obs.Raw = r
 	obs.Status = r.Status
 	obs.Code = canonCode(r, anon)
